@@ -1155,12 +1155,18 @@ func (g *fnGen) generate() {
 	g.frameEntryAlloc = st.alloc
 	g.paramVals = map[string]string{}
 	g.paramTypes = map[string]types.Type{}
-	for _, p := range fn.Params {
+	for pi, p := range fn.Params {
 		sym := q("p!" + p.Name())
+		if p.Name() == "_" {
+			// several blank parameters of different sorts would share one symbol
+			sym = q(fmt.Sprintf("p!_%d", pi))
+		}
 		g.declare(sym, g.R.sortOf(p.Type()))
 		g.vals[p] = sym
-		g.paramVals[p.Name()] = sym
-		g.paramTypes[p.Name()] = p.Type()
+		if p.Name() != "_" {
+			g.paramVals[p.Name()] = sym
+			g.paramTypes[p.Name()] = p.Type()
+		}
 		g.typeFacts(st, sym, p.Type())
 	}
 	g.privateFV = map[*ssa.FreeVar]bool{}
